@@ -11,6 +11,16 @@ RECURSIVE ContainsAt2(_, _, _)
 ContainsAt2(s, sub, i) == IF i + Len(sub) - 1 > Len(s) THEN FALSE ELSE IF SubSeq(s, i, i + Len(sub) - 1) = sub THEN TRUE ELSE ContainsAt2(s, sub, i + 1)
 UnsupportedPanic(o) == \E w \in {"not support", "doesnot support", "not implemented", "not available", "Not supported", "doesn't support", "No alter option", "cannot be larger"} : ContainsAt2(o.panic, w, 1)
 
+\* the predicate of a partial index, as the engine's catalogue (sqlite_master.sql) spells it right after CREATE INDEX
+PredReasons(d, tables) ==
+  IF d.stmt # "index_create" THEN {}
+  ELSE LET want == IF "where" \in DOMAIN d THEN Canon("sqlite", d.where) ELSE [k |-> "none"]
+           sqls == UNION {{tables[t].indexes[i].sql : i \in {k \in DOMAIN tables[t].indexes : tables[t].indexes[k].name = d.name}} : t \in DOMAIN tables}
+       IN IF sqls = {} THEN {}                                   \* a missing index is reported by CatReasons
+          ELSE LET p == ParseDDL("sqlite", CHOOSE x \in sqls : TRUE) IN
+               IF ~p.ok THEN {"C13/index_create/catalogue_text_does_not_parse"}
+               ELSE IF p.v.kind = "create_index" /\ p.v.where = want THEN {} ELSE {"C13/index_create/partial_predicate_differs"}
+
 \* C13: step the catalogue model through the declared history; compare with the engine's dump after each executed step
 RECURSIVE C13From(_, _, _)
 C13From(r, i, cat) ==
@@ -22,7 +32,7 @@ C13From(r, i, cat) ==
           ELSE IF IsPanic(st) \/ "sqlite" \notin DOMAIN st.r.r \/ IsPanic(st.r.r["sqlite"]) THEN {"C13/" \o d.stmt \o "/render_panic"}
           ELSE IF e.exec # "ok" THEN {"C13/" \o d.stmt \o "/engine_rejects"}
           ELSE LET cat2 == Exec(cat, d) IN
-               {"C13/" \o d.stmt \o "/" \o x : x \in CatReasons(cat2, e.cat.tables)} \cup C13From(r, i + 1, cat2)
+               {"C13/" \o d.stmt \o "/" \o x : x \in CatReasons(cat2, e.cat.tables)} \cup PredReasons(d, e.cat.tables) \cup C13From(r, i + 1, cat2)
 
 C14Keys(r) ==
   UNION { UNION { LET d == r.history[i]  st == r.steps[i] IN
@@ -51,7 +61,8 @@ Drift(r) ==
                   ELSE IF st.r.r[B].r = RenderDDL(B, d) THEN {} ELSE {d.stmt \o "/" \o B}
                   : B \in {"mysql", "pg", "sqlite"} } : i \in DOMAIN r.history }
 Verdict(r) ==
-  LET ks == C13From(r, 1, <<>>) \cup C14Keys(r) \cup C15Keys(r) IN
+  LET ks == C13From(r, 1, <<>>) \cup C14Keys(r) \cup C15Keys(r)
+            \cup (IF \A i \in DOMAIN r.history : DeclMethodsOk(r.history[i]) THEN {} ELSE {"!case_error/method_annotation_contradicts_column_methods_json"}) IN
   [id |-> r.id, keys |-> {k \in ks : ~HasChar(k, "?")}, n13 |-> Cardinality({i \in DOMAIN r.history : Supported13(r.history[i])}), nsteps |-> Len(r.history),
    drift |-> Drift(r)]
 Step == /\ l <= Len(Rec)
